@@ -28,7 +28,7 @@ META = {
 
 ADV_ATOMS: t.List[t.Any] = [
     None, True, 2.5, [], {}, [1], {'a': 1}, '(', 'a{4294967296}', '1/0', 'NaN', '१', '\x00', '\ud800',
-    '9' * 5000, '2023-13-45', '25:61:61', '2023-09-05T25:00', 10 ** 400, -10 ** 400, values.INF, values.NAN,
+    '9' * 5000, 10 ** 5000, -10 ** 5000, '2023-13-45', '25:61:61', '2023-09-05T25:00', 10 ** 400, -10 ** 400, values.INF, values.NAN,
     b'\xff\xfe', [[]], [{}], {'': {}}, complex(values.INF, 0), '', ' ', '1e999', '-', '0x10', '1_0',
 ]
 ADV_KEYS: t.List[t.Any] = [1, None, (1, 2), 1.5, True, '', '\ud800', b'k', ('a', ('b',))]
